@@ -107,7 +107,7 @@ func (w *AWorld) hooksSetup(dir string) {
 			beh[dir+"/"+n] = simexec.Behaviour{ExitAfter: time.Second, ExitCode: 1}
 			r.Count("fault:hook-fails")
 		case 2:
-			beh[dir+"/"+n] = simexec.Behaviour{Hang: true}
+			beh[dir+"/"+n] = simexec.Behaviour{Hang: true, IgnoreTerm: true}
 			r.Count("fault:hook-hangs")
 		case 3:
 			beh[dir+"/"+n] = simexec.Behaviour{StartErr: fmt.Errorf("fork/exec: resource temporarily unavailable")}
